@@ -348,7 +348,19 @@ class Interp:
                 self.assign(st.target, self.ev(st.value, env, mod, depth), env, mod, depth)
         elif isinstance(st, ast.AugAssign):
             cur = self.ev(st.target, env, mod, depth)
-            v = self.binop(st.op, cur, self.ev(st.value, env, mod, depth), st)
+            rhs = self.ev(st.value, env, mod, depth)
+            inplace = {ast.Add: "__iadd__", ast.BitOr: "__ior__", ast.BitAnd: "__iand__", ast.Sub: "__isub__", ast.BitXor: "__ixor__", ast.Mult: "__imul__"}.get(type(st.op))
+            if type(cur) in (bytearray, list, set, dict) and inplace and hasattr(cur, inplace) and type(rhs) in (bytes, bytearray, list, tuple, set, frozenset, dict, int):
+                # mutable containers are updated in place (aliases see the change), exactly like Python
+                try:
+                    r = getattr(cur, inplace)(rhs)
+                except (TypeError, ValueError) as e:
+                    raise Raised(type(e).__name__)
+                v = cur if r is NotImplemented or r is None else r
+                if r is NotImplemented:
+                    v = self.binop(st.op, cur, rhs, st)
+            else:
+                v = self.binop(st.op, cur, rhs, st)
             self.assign(st.target, v, env, mod, depth)
         elif isinstance(st, (ast.For, ast.While)):
             self.loop(st, env, mod, depth)
